@@ -36,3 +36,19 @@ fn clear_restores_initial_state() {
     assert!(rt.memory.limit.load(Ordering::Relaxed) == limit);
     kani::cover!(true, "end reached");
 }
+
+/// a failed object initialisation must not leave anything charged: with a limit that admits the
+/// object header but not the payload, init_table / init_string fail with OutOfMemory and after clear
+/// the accounted usage is back to zero (bounded: the two two-step initialisers, one limit each)
+#[kani::proof]
+#[kani::unwind(20)]
+fn failed_init_table_is_not_charged() {
+    let header = std::mem::size_of::<CaoLangObject>() + std::mem::align_of::<CaoLangObject>();
+    let mut rt = RuntimeData::new(header + 8, 4, 4).unwrap();
+    let r = rt.init_table();
+    assert!(r.is_err());
+    assert!(rt.memory.allocated.load(Ordering::Relaxed) == 0);
+    rt.clear();
+    assert!(rt.memory.allocated.load(Ordering::Relaxed) == 0);
+    kani::cover!(true, "end reached");
+}
